@@ -33,4 +33,47 @@ FiniteDifference(t, v, row, h) ==
   (\E i \in DOMAIN t : t[i].e = v) =>
      h * ColAt(DTerm(t, <<v>>), row) = ColAt(t, [row EXCEPT ![v] = @ + h]) - ColAt(t, row)
 Compositional(t, u, v) == DTerm(t, <<u, v>>) = DTerm(DTerm(t, <<u>>), <<v>>)
+
+(***************************************************************************)
+(* The FORMULA level (SimpleFormula.differentiate, StructuredFormula.      *)
+(* differentiate).  A structured formula is a sequence of parts, each a    *)
+(* term list (lhs ~ rhs, a | b | c, keyword parts); its derivative keeps   *)
+(* the parts and differentiates every part with respect to the SAME tuple. *)
+(* A factor is matched by its expression alone: neither its eval method    *)
+(* (a python factor I(x) is a factor like any other) nor what the formula  *)
+(* reports as the variables it requires from the data plays a role.        *)
+(* Design errors TLC must refute (OutputLaw fails under them):             *)
+(*   "required": a fast path - if some differentiation variable is not     *)
+(*               among the variables the formula requires (req), every     *)
+(*               term is 0.  Wrong, because the required variables leave   *)
+(*               out names that may resolve without data (a column called  *)
+(*               like a transform) and hold the names INSIDE python        *)
+(*               factors, not the factors.                                 *)
+(*   "consumed": the tuple of variables is an iterator shared by the       *)
+(*               parts - the part visited first exhausts it, the others    *)
+(*               are differentiated with respect to nothing.               *)
+(***************************************************************************)
+Occurs(t, v) == \E i \in DOMAIN t : t[i].e = v
+DFormulaV(variant, ts, wrt, req) ==        \* req: the set of names the formula reports as required
+  IF variant = "required" /\ ~(Range(wrt) \subseteq req) THEN [i \in DOMAIN ts |-> ZeroTerm] ELSE DFormula(ts, wrt)
+DStructuredV(variant, parts, wrt, reqs) == \* reqs[k]: required names of part k
+  [k \in DOMAIN parts |-> DFormulaV(variant, parts[k], IF variant = "consumed" /\ k > 1 THEN <<>> ELSE wrt, reqs[k])]
+
+(* what the property says about the OUTPUT D of differentiating the term list F with respect to wrt (<= 2 variables), in terms of  *)
+(* the output alone: same number of terms; term i is 0 as soon as some variable does not occur in F[i] (or is taken twice: after   *)
+(* the first step it no longer occurs); with respect to nothing it is F[i]; for one occurring variable it is the exact finite      *)
+(* difference on integer rows; for two, the two steps in either order give it (each step judged by the clauses before).            *)
+OutputLaw(F, D, wrt, rows) ==
+  /\ Len(D) = Len(F)
+  /\ \A i \in DOMAIN F :
+       /\ wrt = <<>> => D[i] = F[i]
+       /\ ((\E j \in DOMAIN wrt : ~Occurs(F[i], wrt[j])) \/ (Len(wrt) = 2 /\ wrt[1] = wrt[2])) => D[i] = ZeroTerm
+       /\ (Len(wrt) = 1 /\ Occurs(F[i], wrt[1])) => \A r \in DOMAIN rows : \A h \in {1, 2} :
+             h * ColAt(D[i], rows[r]) = ColAt(F[i], [rows[r] EXCEPT ![wrt[1]] = @ + h]) - ColAt(F[i], rows[r])
+       /\ (Len(wrt) = 2 /\ wrt[1] # wrt[2] /\ Occurs(F[i], wrt[1]) /\ Occurs(F[i], wrt[2])) =>
+             /\ D[i] # ZeroTerm
+             /\ \A r \in DOMAIN rows : \A h \in {1, 2} :     \* the mixed second difference of a multilinear term
+                  LET a == wrt[1]  b == wrt[2]  row == rows[r]
+                      ra == [row EXCEPT ![a] = @ + h]  rb == [row EXCEPT ![b] = @ + h]  rab == [ra EXCEPT ![b] = @ + h] IN
+                  h * h * ColAt(D[i], row) = ColAt(F[i], rab) - ColAt(F[i], ra) - ColAt(F[i], rb) + ColAt(F[i], row)
 =============================================================================
